@@ -6,13 +6,14 @@ import (
 	"go/constant"
 	"go/token"
 	"go/types"
+	"os"
 	"strings"
 )
 
 func init() { register("C07", propC07) }
 
 func propC07(r *Report, tier string) {
-	r.Explanation = "ONLY writer/reader agreement and guard-presence clauses of 'numbers sort and range-match exactly' are decided (this is a deliberately thin claim; all arithmetic is out of reach): (a) K11 the precision step the numeric and date indexers emit terms with equals the constant step the range searcher splits with; (b) K11 the prefix-coded encoder and decoder use the same group width (7 bits, mask 0x7f), sign-flip constant and shift-start byte object; (c) the float<->int64 maps are pure bit transformations: every return of Float64ToInt64 is computed from math.Float64bits and Int64ToFloat64 returns math.Float64frombits (no value-dependent special case); (d) the exclusive->inclusive bound steps are guarded against wrap-around; (e) the range splitter's base case includes both wrap-around flags; (f) the leaf-range enumerator advances terms in the encoder's radix (reports KNOWN finding F11: it counts base 256 over 7-bit digits)."
+	r.Explanation = "ONLY writer/reader agreement and guard-presence clauses of 'numbers sort and range-match exactly' are decided (this is a deliberately thin claim; all arithmetic is out of reach): (a) K11 the precision step the numeric and date indexers emit terms with equals the constant step the range searcher splits with; (b) K11 the prefix-coded encoder and decoder use the same group width (7 bits, mask 0x7f), sign-flip constant and shift-start byte object; (c) the float<->int64 maps are pure bit transformations: every return of Float64ToInt64 is computed from math.Float64bits and Int64ToFloat64 returns math.Float64frombits (no value-dependent special case); (d) the exclusive->inclusive bound steps are guarded against wrap-around; (e) the range splitter's base case includes both wrap-around flags; (f) the leaf-range enumerator advances terms in the encoder's radix (reports KNOWN finding F11: it counts base 256 over 7-bit digits). (g) K5 a helper that reads the first/last element of its list parameter without a length test is called only where the list is known to be non-empty (an empty range cover must match nothing, not panic)."
 	r.NotCovered = "order preservation, round trip, cover/disjointness of the split, inclusive/exclusive arithmetic, date parsing: arithmetic facts over all int64/float64 that need a solver or proof (a different technique family)"
 	rulePrecisionStepAgreement(r, "K11-precision-step")
 	rulePrefixCodedAgreement(r, "K11-prefix-coding")
@@ -23,6 +24,7 @@ func propC07(r *Report, tier string) {
 	ruleInclusiveFlagsSingleInterpreter(r, "K7-inclusive-flags-single-interpreter")
 	ruleRangeBoundsAreOpaqueBits(r, "K7-range-bounds-are-opaque-bits")
 	ruleCursorLayoutAgreement(r, "K11-cursor-layout")
+	ruleEndpointIndexNeedsNonEmpty(r, "K5-endpoint-index-needs-non-empty")
 	r.Floor("K11-precision-step", 3)
 	r.Floor("K11-prefix-coding", 4)
 	r.Floor("K5dep-float-maps-pure", 2)
@@ -400,4 +402,123 @@ func normaliseLocals(info *types.Info, e ast.Expr) string {
 		return exprStr(e)
 	}
 	return rec(e)
+}
+
+// ruleEndpointIndexNeedsNonEmpty (K5): the range searchers hand the list of
+// candidate terms to helpers that look at its first and last element
+// (terms[0], terms[len(terms)-1]).  A range whose cover is empty (min > max,
+// [x, x)) produces an empty list, so such an access needs a non-emptiness
+// guard - inside the helper, or at EVERY call site on the list passed in.
+// Without one an empty range panics (index out of range) instead of matching
+// nothing.
+func ruleEndpointIndexNeedsNonEmpty(r *Report, rule string) {
+	p := r.P
+	n := 0
+	for _, fi := range p.flist {
+		if fi.Decl == nil || fi.Decl.Body == nil || !strings.HasSuffix(fi.Pkg.PkgPath, "search/searcher") {
+			continue
+		}
+		info := fi.Pkg.TypesInfo
+		sig, _ := fi.Obj.Type().(*types.Signature)
+		if sig == nil {
+			continue
+		}
+		params := map[types.Object]int{}
+		for i := 0; i < sig.Params().Len(); i++ {
+			if _, isSlice := sig.Params().At(i).Type().Underlying().(*types.Slice); isSlice {
+				params[sig.Params().At(i)] = i
+			}
+		}
+		if len(params) == 0 {
+			continue
+		}
+		var g *FCFG
+		done := map[types.Object]bool{}
+		ast.Inspect(fi.Decl.Body, func(x ast.Node) bool {
+			if _, isLit := x.(*ast.FuncLit); isLit {
+				return false
+			}
+			ix, ok := x.(*ast.IndexExpr)
+			if !ok {
+				return true
+			}
+			po := objOf(info, ix.X)
+			pi, isParam := params[po]
+			if !isParam || done[po] {
+				return true
+			}
+			// p[0] or p[len(p)-1]
+			endpoint := false
+			if k, isC := intConst(info, ix.Index); isC && k == 0 {
+				endpoint = true
+			}
+			if be, isB := ast.Unparen(ix.Index).(*ast.BinaryExpr); isB && be.Op == token.SUB {
+				if c, isCall := ast.Unparen(be.X).(*ast.CallExpr); isCall && calleeBuiltin(info, c) == "len" && len(c.Args) == 1 && objOf(info, c.Args[0]) == po {
+					endpoint = true
+				}
+			}
+			if os.Getenv("VERIF_DEBUG") != "" {
+				fmt.Println("endpoint:", fi.Name, exprStr(ix), endpoint, assignedOrAddressed(info, fi.Decl.Body, po))
+			}
+			if !endpoint {
+				return true
+			}
+			if g == nil {
+				g = buildCFG(info, fi.Decl.Body)
+			}
+			// the parameter still holds the caller's list here
+			reassigned := false
+			ast.Inspect(fi.Decl.Body, func(y ast.Node) bool {
+				if as, ok := y.(*ast.AssignStmt); ok {
+					for _, l := range as.Lhs {
+						if objOf(info, l) == po && g.ReachesNode(as, ix) {
+							reassigned = true
+						}
+					}
+				}
+				return true
+			})
+			if reassigned {
+				return true
+			}
+			if !lenDomain(info, g.GuardsOf(ix), po)[0] {
+				return true // guarded inside
+			}
+			done[po] = true
+			// every static call site must exclude the empty list
+			sites, guarded := 0, 0
+			where := ""
+			for _, caller := range p.flist {
+				if caller.Decl == nil || caller.Decl.Body == nil || caller.Pkg != fi.Pkg {
+					continue
+				}
+				var cg *FCFG
+				for _, c := range callsIn(caller.Decl.Body) {
+					if f := callee(info, c); f == nil || canonObj(f) != canonObj(fi.Obj) || pi >= len(c.Args) {
+						continue
+					}
+					sites++
+					ao := objOf(info, c.Args[pi])
+					if cg == nil {
+						cg = buildCFG(info, caller.Decl.Body)
+					}
+					if ao != nil && !lenDomain(info, cg.GuardsOf(c), ao)[0] {
+						guarded++
+					} else {
+						where = p.Fset.Position(c.Pos()).String()
+					}
+				}
+			}
+			if sites == 0 {
+				return true
+			}
+			n++
+			r.Fn(fi)
+			r.Ob(rule, fi.Name+"/"+po.Name()+"-endpoints-need-a-non-empty-list", ix.Pos(), sites == guarded, fmt.Sprintf("%s reads the first/last element of its parameter %s without a length test, so every caller has to exclude the empty list (%d of %d call sites do; unguarded: %s)", fi.Name, po.Name(), guarded, sites, where))
+			return true
+		})
+	}
+	if n < 1 {
+		undecidedf("no endpoint access on a slice parameter found in search/searcher")
+	}
 }
